@@ -245,27 +245,245 @@ def build_rows(goals, hyps, rounds=2, max_rows=120000, deg_cap=None):
     return rows, allmon, False
 
 
+def _okey(m):
+    """lex order with newer symbols larger: key for comparing monomials"""
+    return tuple(sorted(m, reverse=True))
+
+
+class _Rules:
+    """hypotheses oriented as rewrite rules  lead -> -(rest)/lc  under the lex order above.
+    Reduction with them is the *search* for a Nullstellensatz certificate: every step subtracts
+    a monomial multiple of a hypothesis, the multiples used are the certificate rows that the
+    solver then checks."""
+
+    def __init__(self, hyps):
+        self.rules = []
+        self.by_top = {}
+        for k, h in enumerate(hyps):
+            if not h.t:
+                continue
+            lead = max(h.t, key=_okey)
+            if not lead:
+                continue
+            lc = h.t[lead]
+            self.rules.append((lead, lc, h, k))
+            top = max(s for s, _ in lead)
+            self.by_top.setdefault(top, []).append(len(self.rules) - 1)
+
+    def find(self, m):
+        """a rule whose lead divides monomial m -> (rule index, quotient)"""
+        for s, _ in m:
+            for ri in self.by_top.get(s, ()):
+                lead = self.rules[ri][0]
+                q = _mdiv_strict(m, lead)
+                if q is not None:
+                    return ri, q
+        return None
+
+
+def _mdiv_strict(m, t):
+    """m / t requiring exponent(m) >= exponent(t) > 0 for every symbol of t (also for the
+    invertible ones: keeps the rewriting terminating)"""
+    d = dict(m)
+    for s, e in t:
+        have = d.get(s)
+        if have is None or e <= 0 or not isinstance(have, int) and have < e:
+            return None
+        if have < e:
+            return None
+        ne = have - e
+        if ne:
+            d[s] = ne
+        else:
+            del d[s]
+    return tuple(sorted(d.items()))
+
+
+def reduce_nf(goal, rules, max_steps=300000):
+    """normal form of `goal` under the rules; returns (nf Poly, used {(hyp index, quotient): coef})"""
+    import heapq
+    cur = dict(goal.t)
+    heap = [(_neg(_okey(m)), m) for m in cur]
+    heapq.heapify(heap)
+    done = {}
+    used = {}
+    steps = 0
+    while heap:
+        _, m = heapq.heappop(heap)
+        c = cur.pop(m, None)
+        if c is None:
+            continue
+        hit = rules.find(m)
+        if hit is None:
+            done[m] = c
+            continue
+        ri, q = hit
+        lead, lc, h, k = rules.rules[ri]
+        f = Fraction(c) / lc
+        f = f.numerator if f.denominator == 1 else f
+        used[(k, q)] = used.get((k, q), 0) + f
+        for hm, hc in h.t.items():
+            if hm == lead:
+                continue
+            kk, mm = P._mmul(hm, q)
+            old = cur.get(mm)
+            v = (old or 0) - f * hc * kk
+            if v:
+                cur[mm] = v
+                if old is None:
+                    heapq.heappush(heap, (_neg(_okey(mm)), mm))
+            else:
+                cur.pop(mm, None)
+        steps += 1
+        if steps > max_steps:
+            for mm, v in cur.items():
+                done[mm] = done.get(mm, 0) + v
+            break
+    return P.Poly({m: c for m, c in done.items() if c}), used
+
+
+class _neg:
+    """reverse ordering wrapper for heapq (max-heap on the monomial order)"""
+    __slots__ = ("k",)
+
+    def __init__(self, k):
+        self.k = k
+
+    def __lt__(self, o):
+        return self.k > o.k
+
+    def __eq__(self, o):
+        return self.k == o.k
+
+
+def eliminate(hyps, goals, max_terms=60000):
+    """Solve hypotheses for symbols and substitute.  A hypothesis  c*m*x + rest = 0  with x
+    occurring exactly once (linearly), m a monomial of invertible symbols and x not in
+    `rest`, is equivalent to  x = -rest/(c*m)  (m != 0): substituting it into everything else
+    removes both the hypothesis and the symbol.  Entries of isometric factors (Q, U, V) are
+    never solved for, so what remains are the orthonormality relations.  Preference: leaf /
+    older symbols first.  Returns (remaining hyps, substituted goals, number eliminated)."""
+    hyps = [h for h in hyps if h.t]
+    goals = list(goals)
+    inv = P.TAB.invertible
+    con = P.TAB.constrained
+    nel = 0
+    progress = True
+    dead = set()
+    while progress:
+        progress = False
+        for hi, h in enumerate(hyps):
+            if hi in dead or not h.t:
+                continue
+            # candidate symbols: appear in exactly one term, with exponent 1, cofactor invertible
+            occ = {}
+            for m in h.t:
+                for s, e in m:
+                    occ.setdefault(s, []).append((m, e))
+            best = None
+            for s, lst in occ.items():
+                if s in con or s in inv or s == 0 or s in P.TAB.powrule or len(lst) != 1:
+                    continue
+                m, e = lst[0]
+                if e != 1:
+                    continue
+                if any(x[0] != s and x[0] not in inv for x in m):
+                    continue
+                if best is None or s < best[0]:
+                    best = (s, m)
+            if best is None:
+                continue
+            s, m = best
+            c = h.t[m]
+            cof = P.Poly({tuple(x for x in m if x[0] != s): c})
+            rest = P.Poly({mm: cc for mm, cc in h.t.items() if mm != m})
+            expr = (-rest) * cof.inverse()
+            if len(expr.t) > 400:
+                continue
+            dead.add(hi)
+            cache = {}
+            for hj in range(len(hyps)):
+                if hj not in dead and hyps[hj].t:
+                    if any(x[0] == s for mm in hyps[hj].t for x in mm):
+                        hyps[hj] = hyps[hj].subs(s, expr, cache)
+            for gi in range(len(goals)):
+                g = goals[gi]
+                if g.t and any(x[0] == s for mm in g.t for x in mm):
+                    goals[gi] = g.subs(s, expr, cache)
+                    if len(goals[gi].t) > max_terms:
+                        raise _TooBig()
+            nel += 1
+            progress = True
+    rem = []
+    seen = set()
+    for hi, h in enumerate(hyps):
+        if hi in dead or not h.t:
+            continue
+        k = frozenset(h.t.items())
+        if k not in seen:
+            seen.add(k)
+            rem.append(h)
+    return rem, goals, nel
+
+
+class _TooBig(Exception):
+    pass
+
+
 def q_cert(goals, hyps, stats, rounds=2, timeout_ms=120000, max_rows=120000):
     """goals: list of Poly (to be shown == 0 modulo hyps).  Returns
-    ('unsat'|'sat'|'unknown'|'vacuous', info)."""
+    ('unsat'|'sat'|'unknown'|'vacuous', info).
+
+    Stage 1: certificate *search* by polynomial reduction (hypotheses oriented as rewrite
+    rules); the monomial multiples used are handed to z3 as rows and z3 *checks*
+    rows => goal == 0 in QF_LRA.  Stage 2 (goals stage 1 cannot reduce to zero): blind
+    term-quotient closure + QF_LRA as before."""
     goals = [g for g in goals]
     nz = [g for g in goals if g.t]
     if not nz:
-        # normal forms already agree: discharge by Q-ID on the zero polynomial
         s = z3.SolverFor("QF_LRA")
         s.add(z3.BoolVal(False))
         return _check(s, stats, "Q-CERT/trivial"), {"rows": 0}
     t0 = time.time()
-    rows, allmon, capped = build_rows(nz, hyps, rounds=rounds, max_rows=max_rows)
+    info0 = {}
+    try:
+        hyps, nz2, nel = eliminate(hyps, nz)
+        info0 = {"eliminated": nel, "hyps_left": len(hyps)}
+        goals = nz = [g for g in nz2]
+        nz = [g for g in nz if g.t]
+        if not nz:
+            s = z3.SolverFor("QF_LRA")
+            s.add(z3.BoolVal(False))
+            return _check(s, stats, "Q-CERT/eliminated"), dict(info0, rows=0)
+    except _TooBig:
+        info0 = {"eliminated": "aborted (too many terms)"}
+    rules = _Rules(hyps)
+    rowkeys = {}
+    left = []
+    for g in nz:
+        nf, used = reduce_nf(g, rules)
+        if nf.t:
+            left.append(g)
+        else:
+            rowkeys.update(used)
+    info = dict(info0, reduced_to_zero=len(nz) - len(left), not_reduced=len(left))
     atoms = _MonoAtoms()
     s = z3.SolverFor("QF_LRA")
     s.set("timeout", timeout_ms)
+    rows = []
+    for (k, q) in rowkeys:
+        rows.append(hyps[k] * P.Poly({q: 1}) if q else hyps[k])
+    allmon = set()
+    capped = False
+    if left:
+        rows2, allmon, capped = build_rows(left, hyps, rounds=rounds, max_rows=max_rows)
+        rows.extend(rows2)
     for r in rows:
         s.add(atoms.lin(r) == 0)
     stats.build_s += time.time() - t0
     stats.rows += len(rows)
-    stats.monomials += len(allmon)
-    info = {"rows": len(rows), "monomials": len(allmon), "capped": capped, "rounds": rounds}
+    stats.monomials += len(atoms.v)
+    info.update({"rows": len(rows), "monomials": len(atoms.v), "capped": capped, "rounds": rounds})
     # vacuity guard: the rows alone must be satisfiable (1 not in their span)
     r0 = _check(s, stats, "Q-CERT/consistency")
     if r0 != "sat":
